@@ -72,22 +72,27 @@ def run(prog: Program, res: Result, tier: str) -> None:
         raise AnalysisError(f"only {n} inverse real FFT sites found (4 confirmed by hand)")
     # wrapper forwards n
     w = prog.func(K, "nb_irfft")
-    ok = "return np.fft.irfft(arr, n)" in norm(w.node)
+    from ..normalform import canon, normal_form, returned
+    ok = returned(w) == [canon("np.fft.irfft(arr, n)")]
     (res.ok if ok else res.bad)("R1", w, w.node, "nb_irfft forwards its length argument" if ok else "nb_irfft no longer forwards n to np.fft.irfft",
                                 construct="nb_irfft", key="wrapper-forwards")
     wr = prog.func(K, "nb_rfft")
-    ok = "return np.fft.rfft(arr, n)" in norm(wr.node)
+    ok = returned(wr) == [canon("np.fft.rfft(arr, n)")]
     (res.ok if ok else res.bad)("R2", wr, wr.node, "nb_rfft forwards its length argument" if ok else "nb_rfft no longer forwards n", construct="nb_rfft", key="rfft-wrapper")
 
     # ---- R2 rfft length bookkeeping ------------------------------------------------------------
     rf = prog.func("sigpyproc.timeseries", "TimeSeries.rfft")
-    src = norm(rf.node)
-    ok = "n_good = kernels.nb_fft_good_size(self.nsamples, real=True)" in src and "hdr_changes = {'nsamples': n_good}" in src and \
-        "fftn(self.data, n_good)" in src and "self.header.new_header(hdr_changes)" in src and "fftn = kernels.nb_rfft" in src
+    G = "kernels.nb_fft_good_size(self.nsamples, real=True)"
+    rets = normal_form(rf).returns()
+    ok = bool(rets)
+    for e in rets:
+        f_ = "kernels.nb_rfft" if e.under("fftn is None") or any("cmp[Is]($v" in c and c.startswith("if ") for c in e.ctx) else None
+        m_ = __import__("re").fullmatch(r"fourierseries\.FourierSeries\((?P<f>[\w.$@]+)\(self\.data, (?P<n>.+?)\), self\.header\.new_header\(\{'nsamples': (?P<h>.+)\}\)\)", e.text())
+        ok = ok and m_ is not None and m_.group("n") == m_.group("h") == canon(G) and (f_ is None or m_.group("f") == f_)
     (res.ok if ok else res.bad)("R2", rf, rf.node, "rfft pads to the good size n_good, transforms with length n_good and records nsamples = n_good" if ok else
                                 "TimeSeries.rfft: the FFT length and the recorded header nsamples are no longer the same n_good", construct="rfft", key="rfft")
     gs = prog.func(K, "nb_fft_good_size")
-    ok = "return rocket_fft.good_size(n, real=real)" in norm(gs.node)
+    ok = returned(gs) == [canon("rocket_fft.good_size(n, real=real)")]
     (res.ok if ok else res.bad)("R2", gs, gs.node, "good size >= n from rocket_fft.good_size" if ok else "nb_fft_good_size changed", construct="good_size", key="good_size")
     fi = prog.func("sigpyproc.fourierseries", "FourierSeries.ifft")
     sites = [(c, n_) for f, c, n_, how in irfft_sites(prog) if f.node is fi.node]
@@ -103,13 +108,16 @@ def run(prog: Program, res: Result, tier: str) -> None:
             raise AnalysisError(f"kernel {name} cannot be compared with its reference definition: {why[0]}")
         (res.ok if verdict == "same" else res.bad)("R3", fn, fn.node, ("; ".join(why))[:500], construct=name, key=name)
     co = prog.func("sigpyproc.timeseries", "TimeSeries.correlate")
-    src = norm(co.node)
-    ok = "other_data_conj = np.conj(other_data[::-1])" in src and "corr_ar = kernels.fftconvolve(self.data, other_data_conj)" in src and \
-        "'nsamples': corr_ar.size" in src
+    rets = normal_form(co).returns()
+    ok = bool(rets)
+    for e in rets:
+        m_ = __import__("re").fullmatch(r"TimeSeries\((?P<c>kernels\.fftconvolve\(self\.data, np\.conj\((?P<y>.+?)\[::-1\]\)\)), self\.header\.new_header\(\{'nsamples': (?P<h>.+)\.size\}\)\)", e.text())
+        ok = ok and m_ is not None and m_.group("h") == m_.group("c") and m_.group("y") in ("other.data", "other.astype(np.float32)", "other")
     (res.ok if ok else res.bad)("R3", co, co.node, "correlate(x, y) = fftconvolve(x, conj(reverse(y))): lags -(m-1)..n-1; header nsamples = result size" if ok else
                                 "correlate is no longer convolution with the reversed conjugate / nsamples not the result size", construct="correlate", key="correlate")
     fs = prog.func("sigpyproc.fourierseries", "FourierSeries.form_spec")
-    ok = "spec_ar = kernels.form_mspec(self.data)" in norm(fs.node)
+    ok = any(e.text() == canon("PowerSpectrum(kernels.form_mspec(self.data), self.header.new_header())") and e.under("not interpolate")
+             for e in normal_form(fs).returns())
     (res.ok if ok else res.bad)("R3", fs, fs.node, "form_spec() uses form_mspec on the Fourier bins" if ok else "form_spec no longer uses form_mspec", construct="form_spec", key="form_spec")
     res.floor("R1", 5)
     res.floor("R2", 4)
